@@ -709,6 +709,18 @@ func drawSnippet(t *rapid.T, name string, e genEnv) []Op {
 		for i := rapid.IntRange(1, 3).Draw(t, "nvisits"); i > 0; i-- {
 			ops = append(ops, Op{K: "advance", N: rapid.IntRange(0, 6).Draw(t, "gapidx")}, Op{K: "visit", B: b, S: pick(t, "route", "/open", "/open", "/p/none", "/p/full", "/p/2fa")})
 		}
+	case "o2stale":
+		// an abandoned start whose parameters must not leak into the next flow
+		if !c.Has("oauth2") {
+			return nil
+		}
+		prov := rapid.IntRange(0, 1).Draw(t, "prov")
+		ops = append(ops, Op{K: "o2start", B: b, N: prov, F: chance(t, "rm1", 70), S2: pick(t, "redir", redirPool...)},
+			Op{K: "o2start", B: b, N: prov, F: chance(t, "rm2", 15)},
+			Op{K: "o2cb", B: b, N: prov, Src: "state", SA: b, S: pick(t, "code", "code-u1", "code-u2")})
+		if c.Has("remember") {
+			ops = append(ops, Op{K: "newsess", B: b}, Op{K: "visit", B: b, S: "/p/none"})
+		}
 	case "oauthlock":
 		if !c.Has("oauth2") {
 			return nil
